@@ -3,10 +3,12 @@
 package rpcsim
 
 import (
+	"bytes"
 	"context"
 	"errors"
 	"fmt"
 	"io"
+	"os"
 	"sync"
 	"time"
 
@@ -599,16 +601,31 @@ type PipeFault struct {
 	Index int
 	Keep  int  // Write: accept this many bytes (mod len) before failing; Read: deliver this many bytes (mod available) then fail
 	EOF   bool // Read: fail with io.EOF instead of an error
+	// Stall (Write, deadline-capable streams only): the stream accepts Keep bytes of the buffer and then stops taking
+	// data: the Write blocks until its deadline expires (it then fails with a timeout), the stream is resumed, or it
+	// is closed.  Dead: Writes that carry a deadline keep timing out after that, until the stream is resumed.
+	Stall bool `json:",omitempty"`
+	Dead  bool `json:",omitempty"`
+}
+
+// WriteRec is one Write call the Conn made on the stream.
+type WriteRec struct {
+	Buf      []byte
+	Accepted int
+	Failed   bool
+	Cont     bool // the bytes continue the buffer a previous, partly accepted Write left unfinished
 }
 
 // Pipe is an io.ReadWriteCloser under rpc.NewStreamTransport.  Everything the Conn writes is recorded; the peer
-// feeds bytes for the Conn to read.  It has no deadline methods.
+// feeds bytes for the Conn to read.  It has no deadline methods (DPipe adds them).
 type Pipe struct {
 	mu       sync.Mutex
 	toConn   []byte
 	sig      chan struct{}
 	closed   bool
 	closedCh chan struct{}
+	wake     chan struct{} // closed and replaced whenever a deadline, resumed or closed changes
+	wdl, rdl time.Time
 
 	Accepted        []byte // bytes accepted from the Conn
 	Writes          int
@@ -618,11 +635,117 @@ type Pipe struct {
 	AcceptedAtFault int
 	LaterWrites     int // bytes accepted in Write calls after the fault fired
 	peerEOF         bool
+
+	Recs        []WriteRec
+	pendingRest []byte // what is missing of a buffer the stream accepted only partly
+	Garbage     string // first Write whose bytes did not continue a partly accepted buffer
+	stalled     chan struct{}
+	stallOver   bool
+	resumed     bool
 }
 
-func NewPipe() *Pipe { return &Pipe{sig: make(chan struct{}, 1), closedCh: make(chan struct{})} }
+func NewPipe() *Pipe {
+	return &Pipe{sig: make(chan struct{}, 1), closedCh: make(chan struct{}), wake: make(chan struct{}), stalled: make(chan struct{})}
+}
 
-func (p *Pipe) Write(b []byte) (int, error) {
+// DPipe is a Pipe with SetReadDeadline/SetWriteDeadline, i.e. what a net.Conn looks like to the stream transport.
+type DPipe struct{ *Pipe }
+
+func (p DPipe) SetWriteDeadline(t time.Time) error {
+	p.mu.Lock()
+	p.wdl = t
+	p.broadcast()
+	p.mu.Unlock()
+	return nil
+}
+
+func (p DPipe) SetReadDeadline(t time.Time) error {
+	p.mu.Lock()
+	p.rdl = t
+	p.broadcast()
+	p.mu.Unlock()
+	return nil
+}
+
+// broadcast wakes everything that waits for a deadline, a resume or a close.  p.mu is held.
+func (p *Pipe) broadcast() {
+	close(p.wake)
+	p.wake = make(chan struct{})
+}
+
+// waitUntil releases p.mu, sleeps until the stream state changes or the deadline passes, and takes p.mu again.
+func (p *Pipe) waitUntil(dl time.Time) {
+	w := p.wake
+	p.mu.Unlock()
+	if dl.IsZero() {
+		<-w
+	} else {
+		t := time.NewTimer(time.Until(dl))
+		select {
+		case <-w:
+		case <-t.C:
+		}
+		t.Stop()
+	}
+	p.mu.Lock()
+}
+
+// Stalled is closed when the stall fault has fired.
+func (p *Pipe) Stalled() <-chan struct{} { return p.stalled }
+
+// StallOver reports whether the stalled Write call has returned.
+func (p *Pipe) StallOver() bool {
+	p.mu.Lock()
+	defer p.mu.Unlock()
+	return p.stallOver
+}
+
+// Resume makes the stream take data again.
+func (p *Pipe) Resume() {
+	p.mu.Lock()
+	p.resumed = true
+	p.broadcast()
+	p.mu.Unlock()
+}
+
+func expired(dl time.Time) bool { return !dl.IsZero() && !time.Now().Before(dl) }
+
+// accept appends b[:n] to the stream and keeps the books on partly accepted buffers.  p.mu is held.
+func (p *Pipe) accept(rec *WriteRec, b []byte, n int) {
+	if n == 0 {
+		return
+	}
+	if len(p.pendingRest) > 0 {
+		if rec.Accepted == 0 {
+			rec.Cont = true
+		}
+		m := len(p.pendingRest)
+		if len(b) < m {
+			m = len(b)
+		}
+		if !bytes.Equal(b[:m], p.pendingRest[:m]) && p.Garbage == "" {
+			p.Garbage = fmt.Sprintf("Write #%d put %d bytes into the stream although the previous buffer had been accepted only in part; they are not the %d bytes that were missing (first bytes written %x, missing %x)", len(p.Recs), n, len(p.pendingRest), clipB(b[:n]), clipB(p.pendingRest))
+		}
+		if n >= len(p.pendingRest) {
+			p.pendingRest = nil
+		} else {
+			p.pendingRest = p.pendingRest[n:]
+		}
+	} else if n < len(b) {
+		p.pendingRest = append([]byte(nil), b[n:]...)
+	}
+	p.Accepted = append(p.Accepted, b[:n]...)
+	rec.Accepted += n
+}
+
+func clipB(b []byte) []byte {
+	if len(b) > 16 {
+		return b[:16]
+	}
+	return b
+}
+
+func (p *Pipe) Write(b []byte) (n int, err error) {
 	p.mu.Lock()
 	defer p.mu.Unlock()
 	if p.closed {
@@ -630,28 +753,61 @@ func (p *Pipe) Write(b []byte) (int, error) {
 	}
 	i := p.Writes
 	p.Writes++
-	if p.Fault != nil && p.Fault.Write && p.Fault.Index == i && !p.Faulted {
+	p.Recs = append(p.Recs, WriteRec{Buf: append([]byte(nil), b...)})
+	rec := func() *WriteRec { return &p.Recs[i] }
+	defer func() { rec().Failed = err != nil }()
+	f := p.Fault
+	if f != nil && f.Write && f.Index == i && !p.Faulted {
 		n := 0
 		if len(b) > 0 {
-			n = p.Fault.Keep % len(b) // always short of the whole buffer
+			n = f.Keep % len(b) // always short of the whole buffer
 		}
-		p.Accepted = append(p.Accepted, b[:n]...)
+		p.accept(rec(), b, n)
 		p.Faulted = true
 		p.AcceptedAtFault = len(p.Accepted)
-		return n, ErrInjected
+		if !f.Stall {
+			return n, ErrInjected
+		}
+		close(p.stalled)
+		defer func() { p.stallOver = true }()
+		for {
+			switch {
+			case p.closed:
+				return n, errors.New("rpcsim: pipe closed during write")
+			case p.resumed:
+				p.accept(rec(), b[n:], len(b)-n)
+				return len(b), nil
+			case expired(p.wdl):
+				return n, os.ErrDeadlineExceeded
+			}
+			p.waitUntil(p.wdl)
+		}
+	}
+	if f != nil && f.Write && f.Stall && f.Dead && p.Faulted && !p.wdl.IsZero() {
+		// the peer still takes nothing: a Write with a deadline runs into it (one without a deadline is let through:
+		// a stream that blocks for ever is not a fault the connection can be asked to survive)
+		for !p.resumed {
+			if p.closed {
+				return 0, errors.New("rpcsim: pipe closed during write")
+			}
+			if expired(p.wdl) {
+				return 0, os.ErrDeadlineExceeded
+			}
+			p.waitUntil(p.wdl)
+		}
 	}
 	if p.Faulted && p.Fault.Write {
 		p.LaterWrites += len(b)
 	}
-	p.Accepted = append(p.Accepted, b...)
+	p.accept(rec(), b, len(b))
 	return len(b), nil
 }
 
 func (p *Pipe) Read(b []byte) (int, error) {
+	p.mu.Lock()
+	defer p.mu.Unlock()
 	for {
-		p.mu.Lock()
 		if p.closed {
-			p.mu.Unlock()
 			return 0, errors.New("rpcsim: read on closed pipe")
 		}
 		if len(p.toConn) > 0 {
@@ -664,7 +820,6 @@ func (p *Pipe) Read(b []byte) (int, error) {
 				copy(b, p.toConn[:n])
 				p.toConn = nil
 				p.peerEOF = true
-				p.mu.Unlock()
 				if n > 0 {
 					return n, nil // the failure itself is reported by the next Read
 				}
@@ -674,22 +829,18 @@ func (p *Pipe) Read(b []byte) (int, error) {
 				return 0, ErrInjected
 			}
 			p.toConn = p.toConn[n:]
-			p.mu.Unlock()
 			return n, nil
 		}
 		if p.peerEOF {
-			eof := p.Fault != nil && p.Fault.EOF
-			p.mu.Unlock()
-			if eof || p.Fault == nil {
+			if (p.Fault != nil && p.Fault.EOF) || p.Fault == nil {
 				return 0, io.EOF
 			}
 			return 0, ErrInjected
 		}
-		p.mu.Unlock()
-		select {
-		case <-p.sig:
-		case <-p.closedCh:
+		if expired(p.rdl) {
+			return 0, os.ErrDeadlineExceeded
 		}
+		p.waitUntil(p.rdl)
 	}
 }
 
@@ -699,30 +850,32 @@ func (p *Pipe) Close() error {
 	if !p.closed {
 		p.closed = true
 		close(p.closedCh)
+		p.broadcast()
 	}
 	return nil
+}
+
+// WriteRecs returns the Write calls seen so far.
+func (p *Pipe) WriteRecs() ([]WriteRec, string) {
+	p.mu.Lock()
+	defer p.mu.Unlock()
+	return append([]WriteRec(nil), p.Recs...), p.Garbage
 }
 
 // Feed gives the Conn bytes to read.
 func (p *Pipe) Feed(b []byte) {
 	p.mu.Lock()
 	p.toConn = append(p.toConn, b...)
+	p.broadcast()
 	p.mu.Unlock()
-	select {
-	case p.sig <- struct{}{}:
-	default:
-	}
 }
 
 // HangUp ends the peer's side of the stream.
 func (p *Pipe) HangUp() {
 	p.mu.Lock()
 	p.peerEOF = true
+	p.broadcast()
 	p.mu.Unlock()
-	select {
-	case p.sig <- struct{}{}:
-	default:
-	}
 }
 
 func (p *Pipe) Snapshot() (accepted []byte, writes, reads int, faulted bool, atFault, later int, closed bool) {
